@@ -390,6 +390,45 @@ def rule_refresh(ctx):
     else:
         ctx.bad("WR.REFRESH", site, af, af.node, "unit alignment must store one common unit into STRT, STOP, STEP and "
                 "curves[0]; found %s" % stores)
+    # 5. every path through update_units_from_index_curve stores all three ~Well units
+    acfg = build_cfg(p, af)
+    for key in ("STRT", "STOP", "STEP"):
+        nodes = [n.id for n in acfg.nodes if n.kind == "stmt" and isinstance(n.ast, ast.Assign) and _well_item_store(n.ast.targets[0], "unit") == key]
+        if nodes:
+            pth = acfg.find_path(acfg.entry, [acfg.exit], avoid=nodes, skip_labels=EXC)
+            ctx.check(pth is None, "WR.REFRESH", "las.LASFile.update_units_from_index_curve#%s-always" % key, af, acfg.nodes[nodes[0]].ast,
+                      "the %s unit is aligned on every path" % key,
+                      "update_units_from_index_curve can return without aligning the %s unit (e.g. an early return when STRT "
+                      "already agrees): STOP/STEP keep a different or empty unit in the written file" % key,
+                      acfg.describe_path(pth) if pth else None)
+    # 6. the STEP computation is not suppressed for a two-sample index
+    ucd = ControlDependence(ucfg)
+    for node in ucfg.nodes:
+        a = node.ast
+        if node.kind == "stmt" and isinstance(a, ast.Assign) and any(isinstance(t, ast.Name) and t.id == "STEP" for t in a.targets):
+            for (tn, lab) in ucd.transitive(node.id):
+                t = ucfg.nodes[tn].ast
+                if ucfg.nodes[tn].kind != "test":
+                    continue
+                lens = [c for c in ast.walk(t) if isinstance(c, ast.Call) and isinstance(c.func, ast.Name) and c.func.id == "len"]
+                if not lens:
+                    continue
+                from sa.consts import fold as _fold, NotConst as _NC
+                try:
+                    class _T(ast.NodeTransformer):
+                        def visit_Call(self, nd):
+                            if isinstance(nd.func, ast.Name) and nd.func.id == "len":
+                                return ast.Constant(value=2)
+                            return self.generic_visit(nd)
+                    import copy as _copy
+                    v = bool(_fold(_T().visit(_copy.deepcopy(t))))
+                except _NC:
+                    continue
+                ok = (v == lab.startswith("true"))
+                ctx.check(ok, "WR.REFRESH", "las.LASFile.update_start_stop_step#STEP-two-samples", uf, t,
+                          "an index of two samples still gets its STEP",
+                          "the STEP refresh is guarded by `%s`, false for an index of exactly two samples: STEP is left empty and "
+                          "written as 0 instead of the first increment" % unparse(t))
     ctx.floor("WR.REFRESH", 6)
 
 
@@ -511,3 +550,29 @@ def rule_determinism(ctx):
                    "mutated default argument")
     ctx.stat("determinism_closure", n)
     ctx.floor("WR.DETERMINISM", 8)
+
+
+def rule_snapshot(ctx):
+    """WR.SNAPSHOT: index_initial, the reference against which write() detects edits of the index, is an independent copy"""
+    p = ctx.p
+    ea = get_effects(p)
+    n = 0
+    for q, fi in sorted(p.functions.items()):
+        if fi.module.name != "las" or isinstance(fi.node, ast.Lambda):
+            continue
+        for sub in walk_shallow(fi.node):
+            if isinstance(sub, ast.Assign) and any(isinstance(t, ast.Attribute) and t.attr == "index_initial" for t in sub.targets):
+                if isinstance(sub.value, ast.Constant) and sub.value.value is None:
+                    continue
+                n += 1
+                paths = ea.paths_of(sub.value, fi)
+                shared = [x for x in paths if x[0][0] != "fresh"]
+                ctx.check(not shared, "WR.SNAPSHOT", "%s#index_initial" % q, fi, sub,
+                          "index_initial is a copy of the index array (`%s`)" % unparse(sub.value),
+                          "index_initial is `%s`, an alias of the live index array (%s): in-place edits of the index change the "
+                          "snapshot too, so write() sees no change and writes stale STRT/STOP/STEP" % (
+                              unparse(sub.value), ", ".join(fmt_path(x) for x in shared)))
+    if n == 0:
+        fi = p.func("las.LASFile.read")
+        ctx.bad("WR.SNAPSHOT", "las.LASFile.read#index_initial", fi, fi.node, "read() no longer records index_initial")
+    ctx.floor("WR.SNAPSHOT", 1)
